@@ -191,6 +191,8 @@ def check(prog, rep, tier):
                                 f"the eviction starts from {nshow(v)}, candidates computed before {resized[0].name}() changed the capacity: they are not the entry's candidates in the new table", resized[0].where())
                         okc = False
                         continue
+                    if v[0] == "call" and len(v[2]) == 1 and v[2][0][0] == "tup":
+                        v = (v[0], v[1], (("lst", v[2][0][1]),), v[3])  # choosing from a tuple is choosing from the list of the same two
                     if v != want and v != ("call", ("ext", "random", "choice"), (("lst", (("p", "idx_2"), ("p", "idx_1"))),), ()):
                         rep.bad("C15.candidate", f"{ctx}.{f.src_name}", f"start index {nshow(v)}", "the eviction starts from an index that is not one of the new entry's two candidates", f.where())
                         okc = False
@@ -456,6 +458,9 @@ MUTANTS = [
     Mutant("_setup_expand appends a copy of a template list built before the loop (each bucket its own object)", "cuckoo/cuckoo.py", seq(
         insert_stmt("CuckooFilter", "_setup_expand", "fresh = []", before="for _ in range(self.capacity)"),
         replace_stmt("CuckooFilter", "_setup_expand", "self.buckets.append([])", "self.buckets.append(fresh[:])")), expect="silent"),
+    Mutant("counting add: a full table hands a new bin to the expansion step before looking for the fingerprint's bin", _CC,
+           insert_stmt("CountingCuckooFilter", "add", "if self.load_factor() >= 1.0: return self._deal_with_insertion(CountingCuckooBin(fingerprint, 1))",
+                       before="is_present = self._check_if_present"), rule="C15.no-duplicate"),
     Mutant("__insert_element < -> <=", _CK, swap_cmp("CuckooFilter", "__insert_element", _ast.Lt, _ast.LtE), rule="C15.bounded"),
     Mutant("counting __insert_element < -> <=", _CC, swap_cmp("CountingCuckooFilter", "__insert_element", _ast.Lt, _ast.LtE), rule="C15.bounded"),
     Mutant("eviction: idx = index_1 always", _CK, replace_stmt("CuckooFilter", "_insert_fingerprint", "idx = index_2 if idx == index_1 else index_1", "idx = index_1"), expect="silent"),
